@@ -28,6 +28,7 @@ type Env struct {
 	old   *State
 	bound map[string]Term
 	depth int
+	oldVars map[string]TV // values of loop-carried locals at the head of the iteration (loop iter clauses)
 }
 
 func (ex *Exec) newEnv(fr *Frame, st, old *State) *Env {
@@ -35,7 +36,7 @@ func (ex *Exec) newEnv(fr *Frame, st, old *State) *Env {
 }
 
 func (e *Env) child() *Env {
-	n := &Env{ex: e.ex, fr: e.fr, vars: map[string]TV{}, st: e.st, old: e.old, bound: map[string]Term{}, depth: e.depth + 1}
+	n := &Env{ex: e.ex, fr: e.fr, vars: map[string]TV{}, st: e.st, old: e.old, bound: map[string]Term{}, depth: e.depth + 1, oldVars: e.oldVars}
 	for k, v := range e.vars {
 		n.vars[k] = v
 	}
@@ -66,13 +67,23 @@ func (ex *Exec) loopEnv(fr *Frame, st *State) *Env {
 		}
 	}
 	// current values of named locals
+	phiFor := map[string]*ssa.Phi{}
 	for v, val := range fr.regs {
 		switch x := v.(type) {
 		case *ssa.Phi:
 			if x.Comment != "" && x.Block() != nil {
-				// prefer the phi of the innermost loop header being evaluated: later
-				// definitions overwrite earlier ones only if they dominate current block
+				// the phi of the innermost enclosing loop header wins: among the
+				// phis whose block dominates the current block, the one lowest in
+				// the dominator tree (deterministic, regs is a map)
 				if fr.curBlock != nil && (x.Block() == fr.curBlock || x.Block().Dominates(fr.curBlock)) {
+					if prev, ok := phiFor[x.Comment]; ok {
+						if !(prev.Block().Dominates(x.Block()) && prev.Block() != x.Block()) {
+							if !(prev.Block() == x.Block() && x.Name() > prev.Name()) {
+								continue
+							}
+						}
+					}
+					phiFor[x.Comment] = x
 					env.vars[x.Comment] = TV{val, x.Type()}
 				}
 			}
@@ -90,6 +101,13 @@ func (ex *Exec) loopEnv(fr *Frame, st *State) *Env {
 		if val, ok := fr.regs[sv]; ok {
 			if _, isAlloc := sv.(*ssa.Alloc); !isAlloc {
 				env.vars[n] = TV{val, sv.Type()}
+			}
+		} else if _, isAlloc := sv.(*ssa.Alloc); !isAlloc && ex.sc.inQuant == 0 {
+			// a named local that this path has not assigned yet: any value
+			if fv := ex.freshVal(sv.Type(), "unset."+n); fv != nil {
+				if _, bad := fv.(Opaque); !bad {
+					env.vars[n] = TV{fv, sv.Type()}
+				}
 			}
 		}
 	}
@@ -508,6 +526,12 @@ func (ex *Exec) evalCall(x *ast.CallExpr, env *Env) TV {
 		}
 		oe := env.child()
 		oe.st = env.old
+		for g, v := range env.old.ghost {
+			oe.vars[g] = TV{v, nil}
+		}
+		for k, v := range env.oldVars {
+			oe.vars[k] = v
+		}
 		return ex.eval(x.Args[0], oe)
 	case "implies":
 		a := ex.term(ex.eval(x.Args[0], env).V, SBool)
